@@ -67,7 +67,7 @@ def bounds(n, pad=2):
     return [None] + list(range(-n - pad, n + pad + 1))
 
 
-STR_OPERANDS = ["", "x", "pq\n", "\x1b", "[\x1bm", "\ufe0fy", "\u200d"]
+STR_OPERANDS = ["", "x", "pq\n", "\x1b", "[\x1bm", "\ufe0fy", "\u200d", "\x1b[31mq", "a\x9b2Kb"]
 FS_OPERANDS = [[], [["", [0] * 8]], [["u", [5, 0, 0, 0, 0, 1, 0, 0]]],
                [["\ufe0fk", [3, 0, 0, 0, 0, 0, 0, 0]]], [["\u200d", [0, 4, 1, 0, 0, 0, 0, 0]], ["\u0301", [1, 0, 0, 0, 0, 0, 0, 0]]],
                [["vw", [0] * 8], ["", [2, 0, 0, 0, 0, 0, 0, 0]], ["z", [0, 3, 2, 0, 0, 0, 0, 0]]]]
@@ -112,7 +112,7 @@ def generate(rng, tier):
             if not thorough and len(combos) > 25:
                 combos = rng.sample(combos, 25)
             for items in combos:
-                if any(o[0] == "str" and "\x1b[" in o[1] for o in items):
+                if any(o[0] == "str" and ("\x1b[" in o[1] or "\x9b" in o[1]) for o in items):
                     continue
                 yield ["join", sep, [list(o) for o in items]]
     # 5. random larger
@@ -235,7 +235,10 @@ def _run(inp, f):
     if kind == "join":
         items = [build_operand(o) for o in inp[2]]
         _pre(inp, [f] + items)
-        return canon.outcome(lambda: f.join(items), observe)
+        # str.join takes any iterable: a list, or something that can be walked only once (a generator, map, iter)
+        shape = (len(items) + len(inp[1])) % 3
+        arg = items if shape == 0 else iter(items) if shape == 1 else (x for x in items)
+        return canon.outcome(lambda: f.join(arg), observe)
     raise ValueError(kind)
 
 
